@@ -71,6 +71,14 @@ def _():
     return [(t, [hyp] + h, g) for (t, h, g) in word_ind(lambda w: Implies(T.over(rec_get(D, 'Sigma').z, w), Select(rec_get(D, 'Q').z, T.dhat(T.dfa_delta_val(D), q, w))))]
 
 
+@proof('dfa', 'Reach-in-Q')
+def _():
+    D = SV(REC('DFA'), T._D); q, x = Consts('q_ x_', Atom)
+    Qz = rec_get(D, 'Q').z
+    return [('least', [T.s_dfa_wf(None, D).z, Select(Qz, q), T.Reach_least(T.dfa_delta_val(D), rec_get(D, 'Sigma').z, q, Qz, False),
+                       Select(T.Reach(T.dfa_delta_val(D), rec_get(D, 'Sigma').z, q), x)], Select(Qz, x))]
+
+
 @proof('dfa', 'restrict-sim')
 def _():
     d1, d2 = Const('d1_', T.DeltaD), Const('d2_', T.DeltaD); Sg = Const('Sg_', T.SetA); q = Const('q_', Atom); x, a = Consts('x_ a_', Atom)
